@@ -612,6 +612,67 @@ theorem initFormsOf_get? (H : Heap) (own : AList GSlot) (inh : List Name) (hown 
   | none =>
     cases initformFor (inh.flatMap (fun k => absSlots (H.slotDefsOf k))) x <;> rfl
 
+/-! ## shared-initialize in normal form -/
+
+/-- the instance's slots and shared-initialize's `nameMap` (slot name ↦ the initarg that filled it) -/
+abbrev SI := AList (Option Val) × AList Name
+
+/-- `obj.setSlot(sd, v)` on the instance's own slots -/
+def setSlotF (sd : GSlot) (v : Option Val) (vars : AList (Option Val)) : AList (Option Val) :=
+  if sd.classStore then vars else vars.set sd.name v
+
+/-- one slot definition offered the value of initarg `k` -/
+def offer1 (k : Name) (v : Val) (st : SI) (sd : GSlot) : SI :=
+  if st.2.has sd.name then st else (setSlotF sd (some v) st.1, st.2.set sd.name k)
+
+/-- pass 2 for one default initarg: every slot that declares it and has not been filled -/
+def offer (sds : List GSlot) (k : Name) (v : Val) (st : SI) : SI := sds.foldl (offer1 k v) st
+
+/-- pass 1 for one supplied initarg: every slot that declares it; `none` = an error is signalled
+    (no slot declares it, or a slot it reaches has been filled already) -/
+def offerStrict (k : Name) (v : Val) : List GSlot → SI → Option SI
+  | [], st => some st
+  | sd :: sds, st =>
+    if st.2.has sd.name then none
+    else offerStrict k v sds (setSlotF sd (some v) st.1, st.2.set sd.name k)
+
+def passArgs (T : GClass) : List (Name × Val) → SI → Option SI
+  | [], st => some st
+  | (k, v) :: r, st =>
+    if ((T.initArgs.get? k).getD []).length == 0 then none
+    else match offerStrict k v ((T.initArgs.get? k).getD []) st with
+      | none => none
+      | some st' => passArgs T r st'
+
+def passDefaults (T : GClass) (st : SI) : SI :=
+  T.defaultInitArgs.foldl (fun st kv => offer ((T.initArgs.get? kv.1).getD []) kv.1 kv.2 st) st
+
+/-- pass 3: the initform table for the slots no initarg filled -/
+def passForms (T : GClass) (st : SI) : SI :=
+  T.initForms.foldl (fun st kv =>
+    if st.2.has kv.1 then st else (setSlotF kv.2 (some (kv.2.initform.getD nilVal)) st.1, st.2)) st
+
+/-- a loop that may end the function: `none` from the step function = return `r` in state `g s` -/
+theorem forRange_option {α σ ρ : Type} (step : σ → α → Option σ) (r : ρ) (body : α → σ → Ctl σ ρ)
+    (hb : ∀ x s, body x s = match step s x with
+      | some s' => Ctl.next s'
+      | none => Ctl.ret s r) :
+    ∀ (xs : List α) (s : σ), (∃ s', forRange xs body s = Ctl.next s' ∧ xs.foldlM step s = some s') ∨
+      ((∃ s', forRange xs body s = Ctl.ret s' r) ∧ xs.foldlM step s = none) := by
+  intro xs
+  induction xs with
+  | nil => intro s; exact Or.inl ⟨s, rfl, rfl⟩
+  | cons x xs ih =>
+    intro s
+    rw [forRange_cons, hb]
+    cases hs : step s x with
+    | none => exact Or.inr ⟨⟨s, rfl⟩, by simp [List.foldlM, hs]⟩
+    | some s' =>
+      simp only [List.foldlM, hs]
+      rcases ih s' with ⟨s'', h1, h2⟩ | ⟨⟨s'', h1⟩, h2⟩
+      · exact Or.inl ⟨s'', h1, by simpa using h2⟩
+      · exact Or.inr ⟨⟨s'', h1⟩, by simpa using h2⟩
+
 /-! ## the order of operations of DefStandardClass, at the level of the hand model
 
   slip: merge the new class object against the table as it is, register it, run the readiness
